@@ -88,6 +88,9 @@ def check_stream(notes, cols, what):
         except Exception:  # noqa - an out-of-range column is outside the domain: whatever happens, later calls are unaffected
             pass
     nd = NoteData.from_notes(iter(notes), cols)
+    # another note data object with another column count, built after this one and before this one is used
+    other_cols = cols % 16 + 1
+    NoteData.from_notes([Note(beat=Beat(1), column=other_cols - 1, note_type=NoteType.TAP, keysound_index=3)], other_cols)
     next(iter(nd), None)  # an abandoned iteration must not disturb later ones
     text = str(nd)
     short = text if len(text) < 300 else text[:300] + "..."
@@ -238,6 +241,14 @@ def s_stream(draw):
                     b = F(4 * (m + 1)) + F(i, D * mult)
                     if b < 4 * (m + 2):
                         spec.append([p, [b.numerator, b.denominator], c, t, ks])
+    if len(players) > 1 and spec and draw(st.integers(0, 3)) == 0:
+        # the next player's first note repeats the previous player's last one (beat, column, type) - two notes, not one
+        for p, q in zip(players, players[1:]):
+            mine = [n for n in spec if n[0] == p]
+            if mine:
+                last = max(mine, key=lambda n: (F(n[1][0], n[1][1]), n[2]))
+                spec = [n for n in spec if not (n[0] == q and (F(n[1][0], n[1][1]), n[2]) <= (F(last[1][0], last[1][1]), last[2]))]
+                spec.append([q, list(last[1]), last[2], last[3], draw(st.sampled_from([last[4], None]))])
     if players and draw(st.integers(0, 7)) == 0:
         # a crowded row: most columns of one row carry a keysounded note (multi-digit indices), so the row's text is far
         # longer than its column count - on the very first row of the text or somewhere later
